@@ -478,4 +478,121 @@ theorem decVersion_encVersion (a b c : Nat) : decVersion (encVersion a b c) = so
     rw [← ha]
     simp [digitsVal_showNatS]
 
+theorem lastIndexOf_go_snoc (c : Char) (a : List Char) : ∀ (i : Nat) (acc : Option Nat),
+    lastIndexOf.go c (a ++ [c]) i acc = some (i + a.length) := by
+  induction a with
+  | nil => intro i acc; simp [lastIndexOf.go]
+  | cons d r ih =>
+    intro i acc
+    simp only [List.cons_append, lastIndexOf.go, List.length_cons]
+    rw [ih]
+    congr 1; omega
+
+theorem lastIndexOf_snoc (c : Char) (a : List Char) : lastIndexOf c (a ++ [c]) = some a.length := by
+  unfold lastIndexOf
+  rw [lastIndexOf_go_snoc]; simp
+
+theorem splitOn_joinWith (sep : Char) : ∀ (items : List (List Char)), items ≠ [] →
+    (∀ x ∈ items, ∀ c ∈ x, c ≠ sep) → splitOn sep (joinWith [sep] items) = items := by
+  intro items
+  induction items with
+  | nil => intro h; exact absurd rfl h
+  | cons x xs ih =>
+    intro _ h
+    cases xs with
+    | nil => simp only [joinWith]; exact splitOn_no_sep sep x (h x (by simp))
+    | cons y ys =>
+      simp only [joinWith, List.append_assoc, List.singleton_append]
+      rw [splitOn_append sep x _ (h x (by simp))]
+      congr 1
+      exact ih (by simp) (fun z hz => h z (by simp [hz]))
+
+theorem joinWith_eq_nil (sep : Char) (items : List (List Char)) (h : joinWith [sep] items = []) :
+    items = [] ∨ items = [[]] := by
+  cases items with
+  | nil => exact Or.inl rfl
+  | cons x xs =>
+    cases xs with
+    | nil => simp only [joinWith] at h; subst h; exact Or.inr rfl
+    | cons y ys => simp [joinWith] at h
+
+theorem joinWith_no_ws (items : List (List Char)) (h : ∀ x ∈ items, ∀ c ∈ x, isWs c = false) :
+    ∀ c ∈ joinWith [','] items, isWs c = false := by
+  induction items with
+  | nil => intro c hc; simp [joinWith] at hc
+  | cons x xs ih =>
+    cases xs with
+    | nil => intro c hc; simp only [joinWith] at hc; exact h x (by simp) c hc
+    | cons y ys =>
+      intro c hc
+      simp only [joinWith, List.append_assoc, List.singleton_append, List.mem_append, List.mem_cons] at hc
+      rcases hc with hc | rfl | hc
+      · exact h x (by simp) c hc
+      · decide
+      · exact ih (fun z hz => h z (by simp [hz])) c hc
+
+/-- words: no comma, no blank -/
+def Words (items : List (List Char)) : Prop := ∀ x ∈ items, ∀ c ∈ x, c ≠ ',' ∧ isWs c = false
+
+theorem map_strip_id (items : List (List Char)) (h : ∀ x ∈ items, ∀ c ∈ x, isWs c = false) :
+    items.map strip = items := by
+  induction items with
+  | nil => rfl
+  | cons x xs ih =>
+    simp only [List.map_cons]
+    rw [strip_id x (h x (by simp)), ih (fun z hz => h z (by simp [hz]))]
+
+theorem decList_body (items : List (List Char)) (hw : Words items) (hne : items ≠ [[]])
+    (body : List Char) (hb : body = joinWith [','] items) :
+    (if (strip body).isEmpty then [] else (splitOn ',' body).map strip) = items := by
+  subst hb
+  have hws := joinWith_no_ws items (fun x hx c hc => (hw x hx c hc).2)
+  rw [strip_id _ hws]
+  by_cases he : (joinWith [','] items).isEmpty = true
+  · simp only [he, if_true]
+    rw [List.isEmpty_iff] at he
+    rcases joinWith_eq_nil ',' items he with h | h
+    · exact h.symm
+    · exact absurd h hne
+  · simp only [he]
+    have hnil : items ≠ [] := by
+      intro e; subst e; simp [joinWith] at he
+    rw [splitOn_joinWith ',' items hnil (fun x hx c hc => (hw x hx c hc).1)]
+    exact map_strip_id items (fun x hx c hc => (hw x hx c hc).2)
+
+/-- `interpret_as_list(format_list(items)) = items` for lists of words of any length (the empty list
+    included; the one list that cannot be written is `[""]`, whose text is the empty list's) -/
+theorem decList_encList (items : List (List Char)) (hw : Words items) (hne : items ≠ [[]]) :
+    decList (encList items) = items := by
+  unfold decList encList encListBody
+  simp only [listBodyOf, lastIndexOf_snoc, List.take_left']
+  exact decList_body items hw hne _ rfl
+
+/-- the same when the brackets belong to the pattern's literals (`\\[(?P<X>.*)\\]`) -/
+theorem decList_encListBody (items : List (List Char)) (hw : Words items) (hne : items ≠ [[]])
+    (hbr : ∀ x, items.head? = some x → x.head? ≠ some '[') :
+    decList (encListBody items) = items := by
+  unfold decList encListBody
+  have hnb : ∀ r, joinWith [','] items ≠ '[' :: r := by
+    intro r e
+    cases items with
+    | nil => simp [joinWith] at e
+    | cons x xs =>
+      have := hbr x rfl
+      cases xs with
+      | nil => simp only [joinWith] at e; rw [e] at this; simp at this
+      | cons y ys =>
+        simp only [joinWith, List.append_assoc, List.singleton_append] at e
+        cases x with
+        | nil => simp at e
+        | cons c cs => simp only [List.cons_append, List.cons.injEq] at e; rw [e.1] at this; simp at this
+  have hm : listBodyOf (joinWith [','] items) = joinWith [','] items := by
+    unfold listBodyOf
+    split
+    · rename_i r heq; exact absurd heq (hnb r)
+    · rfl
+  simp only [hm]
+  exact decList_body items hw hne _ rfl
+
+
 end C07Codec
